@@ -33,7 +33,7 @@ theorem run_decode_none {d d' : Dec} {a a' : Bytes} (h : decode d a = .none d' a
   rw [decode_append, h]
 
 theorem run_decode_item {d d' : Dec} {a a' : Bytes} {i : Item} (h : decode d a = .item i d' a') (x : Bytes) :
-    (run d (a ++ x)).items = i :: (run d' (a' ++ x)).items := by
+    run d (a ++ x) = { run d' (a' ++ x) with items := i :: (run d' (a' ++ x)).items } := by
   have : decode d (a ++ x) = .item i d' (a' ++ x) := by rw [decode_append, h]; rfl
   rw [run_item this]
 
@@ -57,7 +57,17 @@ def inbufOf (ps : Pipes) (j : Nat) : Bytes := (getPipe ps j).inbuf
 
 /-- the items the rest of the connection's byte stream (read buffer + bytes waiting in the pipe)
 decodes to -/
-def Rd.items (ps : Pipes) (rd : Rd) : List Item := (run rd.dec (rd.buf ++ inbufOf ps rd.pipe)).items
+def Rd.rem (ps : Pipes) (rd : Rd) : RunOut := run rd.dec (rd.buf ++ inbufOf ps rd.pipe)
+
+def Rd.items (ps : Pipes) (rd : Rd) : List Item := (rd.rem ps).items
+
+/-- the same run, with `l` already taken off the front -/
+def _root_.Zmq.RunOut.pre (l : List Item) (r : RunOut) : RunOut := { r with items := l ++ r.items }
+
+@[simp] theorem _root_.Zmq.RunOut.pre_nil (r : RunOut) : RunOut.pre [] r = r := by cases r; rfl
+@[simp] theorem _root_.Zmq.RunOut.pre_pre (a b : List Item) (r : RunOut) : RunOut.pre a (RunOut.pre b r) = RunOut.pre (a ++ b) r := by
+  simp [RunOut.pre]
+@[simp] theorem _root_.Zmq.RunOut.pre_items (a : List Item) (r : RunOut) : (RunOut.pre a r).items = a ++ r.items := rfl
 
 theorem inbufOf_setPipe_other (ps : Pipes) (k j : Nat) (p : Pipe) (h : j ≠ k) :
     inbufOf (setPipe ps k p) j = inbufOf ps j := by
@@ -92,8 +102,8 @@ theorem readerPoll_spec (fuel : Nat) (ps : Pipes) (rd : Rd) (who : RWaker)
     (h : readerPoll fuel ps rd who = (r, ps', rd')) :
     rd'.pipe = rd.pipe ∧ (∀ j, j ≠ rd.pipe → inbufOf ps' j = inbufOf ps j) ∧
     (match (generalizing := false) r with
-     | .item i => rd.items ps = i :: rd'.items ps'
-     | .pending => rd.items ps = [] ∧ rd'.items ps' = []
+     | .item i => rd.rem ps = (rd'.rem ps').pre [i]
+     | .pending => rd.rem ps = rd'.rem ps' ∧ rd.items ps = []
      | _ => rd.items ps = []) := by
   induction fuel generalizing ps rd with
   | zero => omega
@@ -116,13 +126,13 @@ theorem readerPoll_spec (fuel : Nat) (ps : Pipes) (rd : Rd) (who : RWaker)
     | none d b =>
       simp only [hd] at h
       have hstuck := decode_stuck_again hd
-      have hrun : ∀ x, (run rd.dec (rd.buf ++ x)).items = (run d (b ++ x)).items := fun x => by
-        rw [run_decode_none hd]
+      have hrun : ∀ x, run rd.dec (rd.buf ++ x) = run d (b ++ x) := fun x => run_decode_none hd x
       have hnil : (run d (b ++ [])).items = [] := by
         rw [List.append_nil]; exact run_items_stuck hd
       by_cases he : (getPipe ps rd.pipe).inbuf.isEmpty
       · have he' : inbufOf ps rd.pipe = [] := by simpa [inbufOf] using he
-        have h0 : rd.items ps = [] := by rw [Rd.items, he', hrun, hnil]
+        have hrem : rd.rem ps = run d (b ++ []) := by rw [Rd.rem, he', hrun]
+        have h0 : rd.items ps = [] := by rw [Rd.items, hrem, hnil]
         simp only [he, ↓reduceIte] at h
         split at h
         · simp only [Prod.mk.injEq] at h
@@ -133,17 +143,18 @@ theorem readerPoll_spec (fuel : Nat) (ps : Pipes) (rd : Rd) (who : RWaker)
             · simp only [Prod.mk.injEq] at h
               obtain ⟨rfl, rfl, rfl⟩ := h
               exact ⟨rfl, fun _ _ => rfl, h0⟩
-            · simp only [decodeOnce, hstuck] at h
+            · simp only [hstuck] at h
               split at h <;>
               · simp only [Prod.mk.injEq] at h
                 obtain ⟨rfl, rfl, rfl⟩ := h
                 exact ⟨rfl, fun _ _ => rfl, h0⟩
           · simp only [Prod.mk.injEq] at h
             obtain ⟨rfl, rfl, rfl⟩ := h
-            refine ⟨rfl, fun j hj => inbufOf_setPipe_other _ _ _ _ hj, h0, ?_⟩
-            simp only [Rd.items, inbufOf_setPipe_same]
+            refine ⟨rfl, fun j hj => inbufOf_setPipe_other _ _ _ _ hj, ?_, h0⟩
+            rw [hrem]
+            simp only [Rd.rem, inbufOf_setPipe_same]
             have : (getPipe ps rd.pipe).inbuf = [] := he'
-            rw [this]; exact hnil
+            rw [this]
       · simp only [he, Bool.false_eq_true, ↓reduceIte] at h
         have hne : (inbufOf ps rd.pipe) ≠ [] := by simpa [inbufOf] using he
         have hpos : 0 < (inbufOf ps rd.pipe).length := List.length_pos_iff.mpr hne
@@ -153,12 +164,13 @@ theorem readerPoll_spec (fuel : Nat) (ps : Pipes) (rd : Rd) (who : RWaker)
           omega) h
         obtain ⟨h1, h2, h3⟩ := this
         refine ⟨h1, fun j hj => by rw [h2 j hj, inbufOf_setPipe_other _ _ _ _ hj], ?_⟩
-        have hitems : Rd.items (setPipe ps rd.pipe { getPipe ps rd.pipe with
+        have hitems : Rd.rem (setPipe ps rd.pipe { getPipe ps rd.pipe with
               inbuf := (getPipe ps rd.pipe).inbuf.drop (min 8192 (getPipe ps rd.pipe).inbuf.length) })
             { rd with dec := d, buf := b ++ (getPipe ps rd.pipe).inbuf.take (min 8192 (getPipe ps rd.pipe).inbuf.length) }
-            = rd.items ps := by
-          simp only [Rd.items, inbufOf_setPipe_same, List.append_assoc, List.take_append_drop]
+            = rd.rem ps := by
+          simp only [Rd.rem, inbufOf_setPipe_same, List.append_assoc, List.take_append_drop]
           rw [hrun]; rfl
+        simp only [Rd.items] at h3 ⊢
         rw [hitems] at h3
         exact h3
 
@@ -218,11 +230,12 @@ def PD (m : Streams) : Prop :=
   ∀ k j rd rd2, ilookup m k = some rd → ilookup m j = some rd2 → k ≠ j → rd.pipe ≠ rd2.pipe
 
 /-- From `(ps, m)` to `(ps', m')` the items `c k` — and nothing else — were taken off the front of
-connection `k`'s stream; a connection that is no longer registered had nothing complete left;
-no connection appears from nowhere. -/
+connection `k`'s stream (the WHOLE remaining run — items, decoder state, leftover bytes, first error —
+is the old one minus that prefix); a connection that is no longer registered had nothing
+complete left; no connection appears from nowhere. -/
 structure Step (ps : Pipes) (m : Streams) (ps' : Pipes) (m' : Streams) (c : Ident → List Item) : Prop where
   old : ∀ k rd', ilookup m' k = some rd' →
-    ∃ rd, ilookup m k = some rd ∧ rd'.pipe = rd.pipe ∧ rd.items ps = c k ++ rd'.items ps'
+    ∃ rd, ilookup m k = some rd ∧ rd'.pipe = rd.pipe ∧ rd.rem ps = (rd'.rem ps').pre (c k)
   gone : ∀ k rd, ilookup m k = some rd → ilookup m' k = none → rd.items ps = c k
   nil : ∀ k, ilookup m k = none → c k = []
 
@@ -230,7 +243,7 @@ def nilC : Ident → List Item := fun _ => []
 def oneC (k : Ident) (i : Item) : Ident → List Item := fun j => if j = k then [i] else []
 
 theorem Step.refl (ps : Pipes) (m : Streams) : Step ps m ps m nilC :=
-  ⟨fun k rd' h => ⟨rd', h, rfl, rfl⟩, fun k rd h h' => (by rw [h] at h'; cases h'), fun _ _ => rfl⟩
+  ⟨fun k rd' h => ⟨rd', h, rfl, by simp [nilC]⟩, fun k rd h h' => (by rw [h] at h'; cases h'), fun _ _ => rfl⟩
 
 theorem Step.trans {ps ps1 ps' : Pipes} {m m1 m' : Streams} {c1 c2 : Ident → List Item}
     (a : Step ps m ps1 m1 c1) (b : Step ps1 m1 ps' m' c2) : Step ps m ps' m' (fun k => c1 k ++ c2 k) := by
@@ -238,14 +251,16 @@ theorem Step.trans {ps ps1 ps' : Pipes} {m m1 m' : Streams} {c1 c2 : Ident → L
   · intro k rd' h
     obtain ⟨rd1, h1, hp1, e1⟩ := b.old k rd' h
     obtain ⟨rd, h0, hp0, e0⟩ := a.old k rd1 h1
-    exact ⟨rd, h0, hp1.trans hp0, by rw [e0, e1, List.append_assoc]⟩
+    exact ⟨rd, h0, hp1.trans hp0, by rw [e0, e1, RunOut.pre_pre]⟩
   · intro k rd h h'
     cases h1 : ilookup m1 k with
     | none => rw [a.gone k rd h h1, b.nil k h1, List.append_nil]
     | some rd1 =>
       obtain ⟨rd0, h0, _, e0⟩ := a.old k rd1 h1
       rw [h] at h0; cases h0
-      rw [e0, b.gone k rd1 h1 h']
+      have := b.gone k rd1 h1 h'
+      simp only [Rd.items] at this ⊢
+      rw [e0, RunOut.pre_items, this]
   · intro k h
     have h1 : ilookup m1 k = none := by
       cases h1 : ilookup m1 k with
@@ -271,14 +286,14 @@ theorem Step.pd {ps ps' : Pipes} {m m' : Streams} {c : Ident → List Item}
   obtain ⟨r2, h2, p2, _⟩ := a.old j rd2 hj
   rw [p1, p2]; exact h k j r1 r2 h1 h2 hne
 
+theorem Rd.rem_frame {ps ps' : Pipes} (rd : Rd) (h : inbufOf ps' rd.pipe = inbufOf ps rd.pipe) :
+    rd.rem ps' = rd.rem ps := by simp [Rd.rem, h]
+
 /-- bytes waiting in the pipes unchanged ⇒ every stream is where it was -/
 theorem Step.frame {ps ps' : Pipes} (m : Streams) (h : ∀ j, inbufOf ps' j = inbufOf ps j) :
     Step ps m ps' m nilC :=
-  ⟨fun k rd' hk => ⟨rd', hk, rfl, by simp [nilC, Rd.items, h]⟩, fun k rd h1 h2 => (by rw [h1] at h2; cases h2),
-   fun _ _ => rfl⟩
-
-theorem Rd.items_frame {ps ps' : Pipes} (rd : Rd) (h : inbufOf ps' rd.pipe = inbufOf ps rd.pipe) :
-    rd.items ps' = rd.items ps := by simp [Rd.items, h]
+  ⟨fun k rd' hk => ⟨rd', hk, rfl, by simp [nilC, Rd.rem_frame rd' (h _)]⟩,
+   fun k rd h1 h2 => (by rw [h1] at h2; cases h2), fun _ _ => rfl⟩
 
 /-- one poll of the reader of connection `k`, checked out of the map and put back (or not) -/
 theorem Step.reader {ps : Pipes} {m : Streams} (hpd : PD m) {k : Ident} {rd : Rd} (hk : ilookup m k = some rd)
@@ -289,9 +304,9 @@ theorem Step.reader {ps : Pipes} {m : Streams} (hpd : PD m) {k : Ident} {rd : Rd
     | .pending => Step ps m ps' (ierase m k ++ [(k, rd')]) nilC
     | _ => Step ps m ps' (ierase m k) nilC := by
   obtain ⟨hp, hfr, hres⟩ := readerPoll_spec fuel ps rd who hf r ps' rd' h
-  have others : ∀ j rdj, j ≠ k → ilookup m j = some rdj → rdj.items ps' = rdj.items ps := by
+  have others : ∀ j rdj, j ≠ k → ilookup m j = some rdj → rdj.rem ps = (rdj.rem ps').pre [] := by
     intro j rdj hj hl
-    exact Rd.items_frame rdj (hfr _ (hpd j k rdj rd hl hk hj))
+    rw [RunOut.pre_nil, Rd.rem_frame rdj (hfr _ (hpd j k rdj rd hl hk hj))]
   cases r with
   | item i =>
     simp only at hres ⊢
@@ -302,7 +317,7 @@ theorem Step.reader {ps : Pipes} {m : Streams} (hpd : PD m) {k : Ident} {rd : Rd
         rw [ilookup_putback_same] at hl; cases hl
         exact ⟨rd, hk, hp, by simp [oneC, hres]⟩
       · rw [ilookup_putback_other _ _ _ _ hj] at hl
-        exact ⟨rdj, hl, rfl, by simp [oneC, hj, others j rdj hj hl]⟩
+        exact ⟨rdj, hl, rfl, by simp only [oneC, hj, ↓reduceIte]; exact others j rdj hj hl⟩
     · intro j rdj hl hn
       by_cases hj : j = k
       · subst hj; rw [ilookup_putback_same] at hn; cases hn
@@ -317,9 +332,9 @@ theorem Step.reader {ps : Pipes} {m : Streams} (hpd : PD m) {k : Ident} {rd : Rd
       by_cases hj : j = k
       · subst hj
         rw [ilookup_putback_same] at hl; cases hl
-        exact ⟨rd, hk, hp, by simp [nilC, hres.1, hres.2]⟩
+        exact ⟨rd, hk, hp, by simp [nilC, hres.1]⟩
       · rw [ilookup_putback_other _ _ _ _ hj] at hl
-        exact ⟨rdj, hl, rfl, by simp [nilC, others j rdj hj hl]⟩
+        exact ⟨rdj, hl, rfl, others j rdj hj hl⟩
     · intro j rdj hl hn
       by_cases hj : j = k
       · subst hj; rw [ilookup_putback_same] at hn; cases hn
@@ -331,7 +346,7 @@ theorem Step.reader {ps : Pipes} {m : Streams} (hpd : PD m) {k : Ident} {rd : Rd
       by_cases hj : j = k
       · subst hj; rw [ilookup_ierase_same] at hl; cases hl
       · rw [ilookup_ierase_other _ _ _ hj] at hl
-        exact ⟨rdj, hl, rfl, by simp [nilC, others j rdj hj hl]⟩
+        exact ⟨rdj, hl, rfl, others j rdj hj hl⟩
     · intro j rdj hl hn
       by_cases hj : j = k
       · subst hj; rw [hk] at hl; cases hl; exact hres
@@ -343,7 +358,7 @@ theorem Step.reader {ps : Pipes} {m : Streams} (hpd : PD m) {k : Ident} {rd : Rd
       by_cases hj : j = k
       · subst hj; rw [ilookup_ierase_same] at hl; cases hl
       · rw [ilookup_ierase_other _ _ _ hj] at hl
-        exact ⟨rdj, hl, rfl, by simp [nilC, others j rdj hj hl]⟩
+        exact ⟨rdj, hl, rfl, others j rdj hj hl⟩
     · intro j rdj hl hn
       by_cases hj : j = k
       · subst hj; rw [hk] at hl; cases hl; exact hres
@@ -392,9 +407,9 @@ theorem Step.pd_step (ps : Pipes) (s : Socket) (k : Ident)
       rcases pd_lookup_same_any ps s j with hn | he
       · rw [hn] at hl; cases hl
       · rw [he] at hl
-        exact ⟨rdj, hl, rfl, by simp [nilC, Rd.items, pd_inbuf]⟩
+        exact ⟨rdj, hl, rfl, by simp [nilC, Rd.rem, pd_inbuf]⟩
     · rw [pd_lookup_other _ _ _ _ hj] at hl
-      exact ⟨rdj, hl, rfl, by simp [nilC, Rd.items, pd_inbuf]⟩
+      exact ⟨rdj, hl, rfl, by simp [nilC, Rd.rem, pd_inbuf]⟩
   · intro j rdj hl hn
     by_cases hj : j = k
     · subst hj; exact h0 rdj hl
